@@ -224,6 +224,15 @@ def ref_tables(L):
     return w2p, p2w, strict
 
 
+_REF_TABLES = {}
+
+
+def ref_tables_cached(L):
+    if L not in _REF_TABLES:
+        _REF_TABLES[L] = ref_tables(L)
+    return _REF_TABLES[L]
+
+
 def _diff_dict(exp, got, cap=4):
     keys = sorted(set(exp) | set(got), key=repr)
     bad = [k for k in keys if exp.get(k) != got.get(k)]
@@ -281,6 +290,22 @@ def run_table_ops(part, L, ops, refs=None):
                     errs.append({"words_only_in_one_table": sorted(seen ^ set(w2p))[:5]})
                 if errs:
                     bad = {"n": len(errs), "first": errs[:4]}
+            elif op == "other":
+                # the same three tables for the neighbouring length (memo keyed by length)
+                L2 = L - 1
+                o_w2p, o_p2w, o_strict = ref_tables_cached(L2)
+                got = {w: tuple(p) for w, p in PW.pinword_to_perm_mapping(L2).items()}
+                if got != o_w2p:
+                    bad = dict(_diff_dict(o_w2p, got), table="pinword_to_perm_mapping(%d)" % L2)
+                got = {tuple(p): set(ws) for p, ws in PW.perm_to_pinword_mapping(L2).items() if ws}
+                if bad is None and got != o_p2w:
+                    bad = dict(_diff_dict(o_p2w, got), table="perm_to_pinword_mapping(%d)" % L2)
+                got = {tuple(p): set(ws)
+                       for p, ws in PW.perm_to_strict_pinword_mapping(L2).items() if ws}
+                if L2 == 0:
+                    got = {}
+                if bad is None and got != o_strict:
+                    bad = dict(_diff_dict(o_strict, got), table="perm_to_strict_pinword_mapping(%d)" % L2)
             elif op == "basis":
                 basis = [perms_L[0], perms_L[-1]]
                 exp = sorted(w for p in basis for w in p2w_ref.get(p, ()))
@@ -320,7 +345,7 @@ def shard_tables(shard):
         part.add(1, 1 if (L >= 2 and len(set(ops)) >= 2) else 0)
         part.bump("table_histories", 1)
         part.bump("table_operations", len(ops))
-    if L == 3 and seqs:
+    if L == 3 and len(seqs) == 1 and seqs[0][0] == "w2p":
         part.sample({"sub": "tables", "length": L, "ops": list(seqs[-1]),
                      "pin_perms": len(refs[1]), "words": len(refs[0])}, cap=1)
     return part
@@ -742,6 +767,9 @@ def run(ctx, only=None):
     ctx.bump("selftest_words_encode_decode", sum(len(v) for v in WORDS.values()))
 
     if want("selftest"):
+        ctx.bounds["selftest"] = ("reference only: encode(decode(w)) == w and distinct configurations for "
+                                  "every pin word of length <= %d; fast tables == naive definitions for all "
+                                  "pairs with |u| <= |w| <= 3" % max(WORDS))
         res = ctx.pmap(shard_selftest, [(n, p) for n in range(0, 4) for p in prefixes(n, 1)])
         ctx.section("selftest", pairs=ctx.counters.get("selftest_pairs", 0))
 
@@ -765,12 +793,13 @@ def run(ctx, only=None):
         full = [["w2p", "p2w", "strict", "inverse", "basis", "p2w", "w2p"],
                 ["strict", "p2w", "w2p", "inverse", "strict"],
                 ["basis", "strict", "inverse", "p2w"]]
+        full_other = [["other", "p2w", "strict", "w2p", "inverse", "other"]]
         for L in range(0, Ltab + 1):
-            for seq in full:
+            for seq in full + (full_other if L >= 1 else []):
                 shards.append((L, [seq]))
-        menu = ["w2p", "p2w", "strict", "basis"]
+        menu = ["w2p", "p2w", "strict", "basis", "other"]
         for L in range(1, Lhist + 1):
-            for chunk in split(op_sequences(menu, 4), 1 if L < 3 else (4 if L == 3 else 16)):
+            for chunk in split(op_sequences(menu, 4), 1 if L < 3 else (8 if L == 3 else 32)):
                 shards.append((L, chunk))
         # length 6 is the first with permutations that have no pin word (56 of 720)
         orders = list(itertools.permutations(["basis_nonpin", "p2w", "strict"]))
@@ -780,7 +809,7 @@ def run(ctx, only=None):
         shards.sort(key=lambda s: -(8 ** s[0]) * len(s[1]))
         ctx.pmap(shard_tables, shards)
         ctx.bounds["tables"] = {"full_check_lengths": "0..%d (three fixed orders)" % Ltab,
-                                "histories": "every sequence of 1..4 operations over %s, lengths 1..%d, "
+                                "histories": "every sequence of 1..4 operations over %s ('other' = the three tables at length-1), lengths 1..%d, "
                                              "caches cleared before each" % (menu, Lhist),
                                 "non_pin_lookup": "length 6: lookup of a permutation without pin "
                                 "words, then p2w, strict, inverse" + ("" if quick else " (all 6 orders)")}
